@@ -64,6 +64,34 @@ theorem C02_gradient_rows : ∀ (ds : List (Dim α)) (xs : List α) (cs : List N
           rw [this]
 
 
+/-- derivative bitmask a gradient lane corresponds to: lane 0 = value, lane `1+d` = `1<<d` -/
+def laneMask : Nat → Nat
+  | 0 => 0
+  | l+1 => 2 ^ l
+
+/-- **Every gradient lane is the corresponding scalar evaluation, operation for operation** — for
+every arithmetic (so bit for bit in IEEE): `ndsplineeval_gradient` returns
+`[ndsplineeval(x, c, 0), ndsplineeval(x, c, 1<<0), …, ndsplineeval(x, c, 1<<(ndim-1))]`
+whenever every dimension has order ≥ 1 and the SIMD layout can serve the request. -/
+theorem C02_gradient_eq_mask_evals (maxDim : Nat) (T : Table α) (xs : List α) (cs : List Nat)
+    (hord : ∀ d ∈ T.dims, d.order ≠ 0) (hdim : T.dims.length + 1 ≤ maxDim) :
+    ndsplineevalGradient maxDim T xs cs =
+      some ((List.range (T.dims.length + 1)).map fun lane => ndsplineeval T xs cs (laneMask lane)) := by
+  unfold ndsplineevalGradient
+  rw [if_neg (by omega)]
+  congr 1
+  apply List.map_congr_left
+  intro lane _
+  unfold ndsplineeval evalModes maskModes
+  rw [C02_gradient_rows T.dims xs cs lane 0 hord]
+  congr 2
+  apply List.map_congr_left
+  intro j _
+  cases lane with
+  | zero => simp [laneMask]
+  | succ l =>
+    simp only [laneMask, Nat.testBit_two_pow, Nat.zero_add, Nat.add_right_cancel_iff, decide_eq_true_eq]
+
 section field
 variable {β : Type} [Field β] [LinearOrder β]
 attribute [local instance] Arith.ofField
@@ -74,6 +102,21 @@ theorem C02_mask_eval_eq_spec_partial (T : Table β) (xs : List β) (cs : List N
     (hs : @searchCenters β (cmpLO β) (T.dims.map Dim.axis) xs = .ok cs) :
     ndsplineeval T xs cs mask = specEval T xs (maskModes T.dims.length mask) :=
   ndsplineeval_mask_eq_specEval T xs cs mask (allOK_of_search T.dims xs cs hwf.dims hlen hnd hs) hwf.stride
+
+/-- **Value-plus-gradient = specification**: lane 0 is the specification sum, lane `1+d` the sum with the
+knot-difference derivative in dimension `d`. -/
+theorem C02_gradient_eq_spec_partial (maxDim : Nat) (T : Table β) (xs : List β) (cs : List Nat) (hwf : T.WF)
+    (hlen : T.dims.length = xs.length) (hnd : AllNonDegenerate T.dims xs)
+    (hs : @searchCenters β (cmpLO β) (T.dims.map Dim.axis) xs = .ok cs)
+    (hord : ∀ d ∈ T.dims, d.order ≠ 0) (hdim : T.dims.length + 1 ≤ maxDim) :
+    ndsplineevalGradient maxDim T xs cs =
+      some ((List.range (T.dims.length + 1)).map fun lane =>
+        specEval T xs (maskModes T.dims.length (laneMask lane))) := by
+  rw [C02_gradient_eq_mask_evals maxDim T xs cs hord hdim]
+  congr 1
+  apply List.map_congr_left
+  intro lane _
+  exact C02_mask_eval_eq_spec_partial T xs cs _ hwf hlen hnd hs
 
 /-- **Arbitrary-order derivatives = specification.**  `ndsplineeval_deriv` with per-dimension
 derivative orders `ks` (0 = value, 1 = single derivative, `k ≥ 2` = the recursive routine) equals the
